@@ -68,6 +68,8 @@ def _mem_limit_kb():
 
 
 def default_jobs():
+    if os.environ.get("VERIF_JOBS"):
+        return max(1, int(os.environ["VERIF_JOBS"]))
     try:
         for l in open("/proc/meminfo"):
             if l.startswith("MemAvailable"):
